@@ -108,6 +108,11 @@ class Interp(Engine):
                 return v.args
             raise Unsupported(f"exception attribute {name}")
         if isinstance(v, Sym):
+            h = getattr(self, "ref_attr_hook", None)  # contract option: a field heap for object REFERENCES (kind ref / oref)
+            if h is not None and v.kind in ("ref", "oref"):
+                r = h(self, v, name, None, False)
+                if r is not NotImplemented:
+                    return r
             return self.models.scalar_attr(self, v, name)
         if isinstance(v, type) and is_repo_class(v):
             r = self.find_method(v, name)
@@ -177,6 +182,10 @@ class Interp(Engine):
                 self.prove(self.site("frame-attr-write"), False, "frame", f"write to field {name} of an input object")
             v.fields[name] = val
             return
+        h = getattr(self, "ref_attr_hook", None)
+        if h is not None and isinstance(v, Sym) and v.kind in ("ref", "oref"):
+            if h(self, v, name, val, True) is not NotImplemented:
+                return
         raise Unsupported(f"attribute store on {type(v).__name__}")
 
     # ------------------------------------------------------------ expressions
